@@ -11,7 +11,7 @@ From LV Require Import Base.Bytes Base.Sx Model.Obj Model.Writer Model.Parser Mo
 From LV Require Model.A85 Model.AsciiHex Spec.AsciiHexSpec Proofs.AsciiHexProofs.
 From LV Require Import Proofs.SpellingNumProofs Proofs.SpellingObjProofs Proofs.SpellingFileProofs Proofs.SpellingProofsLitRaw.
 From LV Require Model.Utf Proofs.LoadsFrameProofs Proofs.LoadsTableProofs Proofs.LoadsStreamProofs Proofs.LoadsFilterProofs.
-From LV Require Model.LoaderExt Model.StreamFilt Spec.StreamCodecSpec Model.Png.
+From LV Require Model.LoaderExt Model.StreamFilt Spec.StreamCodecSpec Model.Png Proofs.ObjStmSpellProofs.
 Local Open Scope N_scope.
 
 (* (1) Cross-reference streams.  For ALL field widths (0 = field absent, any positive width, not all three
@@ -91,6 +91,58 @@ Theorem C02_objstm_expand :
     OsOk (fold_left (fun m it => insert m (oi_num it, 0) (denote it)) items []).
 Proof. exact objstm_expand. Qed.
 
+
+(* (3') THE COMPOSITION of (3) with rung 2: for the payloads the reference writer builds (os_build: any list of distinct
+   generation-0 non-stream objects of the document, EVERY member in ANY spelling -- the style tree of C02_object_any_spelling --
+   followed by at least one white-space byte, any index white-space incl. NUL), the object round trip that (3) takes as a
+   hypothesis is PROVED (the token-sequence invariant of rung 2 with a tail that may be empty: an object followed by
+   white-space and another object, or by the end of the stream, is read back as itself and the parser stops in front of
+   the next object), so ObjectStream::new returns exactly the members, each as [denote] of its object.  [mem_ok] = rung 2's
+   domain (spell_wf, nesting within the parser's limit). *)
+Theorem C02_objstm_any_spelling :
+  forall (objs : list (oid * obj)) (members : list N) (sts : list (ostyle * list N * list N * list N)) (he : list N)
+         (items : list ositem) (d : dict) (n : Z),
+    os_build objs members sts true = Some items -> members <> [] -> NoDup members ->
+    Forall (fun m => m <= u32_max) members ->
+    Forall (fun oy => ObjStmSpellProofs.mem_ok (fst oy) (snd oy)) (ObjStmSpellProofs.os_pairs objs members sts) ->
+    N.of_nat (length (flat_map oi_text items)) <= u32_max ->
+    dict_get d K_First = Some (OInt (Z.of_N (fst (os_payload items (at_least_ws he))))) ->
+    dict_get d K_N = Some (OInt n) ->
+    objstm_plain d (snd (os_payload items (at_least_ws he))) =
+    OsOk (fold_left (fun m it => insert m (oi_num it, 0)
+                       (ObjStmSpellProofs.val_of members
+                          (map (fun oy => denote (fst oy) (snd oy)) (ObjStmSpellProofs.os_pairs objs members sts)) it)) items []).
+Proof. exact ObjStmSpellProofs.objstm_any_spelling. Qed.
+
+Definition ex_os_objs : list (oid * obj) :=
+  [((7, 0), ODict [(bs "K", OArr [ORef 1 0; OStr (bs "a") false])]); ((4, 0), OInt 5); ((5, 0), OName (bs "N x"))].
+Definition ex_os_sts : list (ostyle * list N * list N * list N) :=
+  [(YInt true 2, [], [], [3]); (YDict [FComment (bs "c") ECR] [], [1; 5], [0], []); (YName [NPlain; NHex true false; NPlain], [2], [4], [5; 1])].
+
+(* non-vacuity: three members, "+005", a dictionary with a comment inside, "/N#20x", index separators incl. NUL *)
+Theorem C02_example_objstm_any_spelling :
+  exists items,
+    os_build ex_os_objs [4; 7; 5] ex_os_sts true = Some items /\ NoDup [4; 7; 5] /\
+    Forall (fun oy => ObjStmSpellProofs.mem_ok (fst oy) (snd oy)) (ObjStmSpellProofs.os_pairs ex_os_objs [4; 7; 5] ex_os_sts) /\
+    snd (os_payload items (at_least_ws [5])) =
+      bs "4" ++ [x09] ++ bs "0 7 5" ++ [x0c] ++ bs "5" ++ [x00; x0a] ++ bs "26" ++ [x00] ++
+      bs "+005 <<%c" ++ [x0d] ++ bs "/K[1 0 R(a)]>>" ++ [x0a; x00] ++ bs "/N#20x" ++ [x0d].
+Proof.
+  eexists. split; [vm_compute; reflexivity|]. split; [repeat (constructor; [cbn; intuition discriminate|]); constructor|].
+  split; [|vm_compute; reflexivity].
+  cbn. repeat constructor; cbn;
+    repeat match goal with
+           | |- _ /\ _ => split
+           | |- NoDup _ => repeat (constructor; [cbn; intuition discriminate|]); constructor
+           | |- True => exact I
+           | |- _ = true => reflexivity
+           | |- (_ <= _)%nat => vm_compute; lia
+           | |- _ <= _ => unfold u32_max, u16_max; lia
+           | |- lit_ok _ _ => split; reflexivity
+           | |- ObjStmSpellProofs.mem_ok _ _ => unfold ObjStmSpellProofs.mem_ok; cbn
+           end.
+  all: intros [].
+Qed.
 
 (* (4) ASCIIHexDecode on structural streams (the repair of C02-asciihex, /repo 695e965).  Stream::decode_asciihex
    (Model/AsciiHex.v) returns the data for EVERY legal encoding of it (Spec/AsciiHexSpec.v, written from 7.4.2):
@@ -746,6 +798,8 @@ Print Assumptions C02_table_lookup.
 Print Assumptions C02_table_lookup_none.
 Print Assumptions C02_xref_table_any_sectioning.
 Print Assumptions C02_objstm_expand.
+Print Assumptions C02_objstm_any_spelling.
+Print Assumptions C02_example_objstm_any_spelling.
 Print Assumptions C02_asciihex_roundtrip.
 Print Assumptions C02_asciihex_any_spelling.
 Print Assumptions C02_asciihex_odd_final_digit.
